@@ -431,7 +431,10 @@ def eval_romsgrid(desc, ctx):
     d = ctx.subdir("c11")
     f = d / f"grid_{seed}.nc"
     dxg = desc["dx0"] * (1.0 + 0.0625 * np.arange(imax))[None, :] * (1.0 + 0.125 * np.arange(jmax))[:, None]
-    rf.write_roms(f, imax=imax, jmax=jmax, N=2, times=[0], dx=dxg, grid_only=True)
+    # every other grid has cells that are not square (pn != pm): the code takes ONE length scale per cell, 1/pm, for
+    # both directions (the property speaks of 2*D*dt/dx^2), and that is what the oracle expects
+    dyg = dxg * [1.0, 4.0, 1.0, 0.25][(imax + jmax) % 4] if desc.get("aniso", True) else dxg
+    rf.write_roms(f, imax=imax, jmax=jmax, N=2, times=[0], dx=dxg, dy=dyg, grid_only=True)
     grid = Grid(f, subgrid=list(sub) if sub else None)
     f.unlink()
     i0, i1, j0, j1 = (sub if sub else (1, imax - 1, 1, jmax - 1))
